@@ -41,7 +41,10 @@ class Pattern(Leaf):
         pat = self.pattern or ""
         # multiline patterns are OK
         pat = trim(pat)
-        if '/' in pat:
+        if '/' in pat and '"' in pat and "'" not in pat:
+            # the string forms of a pattern have no escape for their own quote
+            regex = f"?'{pat}'"
+        elif '/' in pat:
             newpat = pat.replace('"', r'\"')
             regex = f'?"{newpat}"'
         else:
